@@ -490,6 +490,9 @@ def run(ctx):
     iprog = ctx.program(names=["ncmpio_intra_node.c"])
     ng = r8aggrgroup.check(ctx, ctx.need_fn(iprog, "ncmpio_intra_node_aggr_init"), "R8.aggrgroup")
     ctx.require(ng >= 200, "R8.aggrgroup: only %d cells evaluated" % ng)
+    from rules import r9eof
+    ctx.rule("R9a.eof", "the header chunk reader turns 'nothing read' into an error and broadcasts its status whenever nprocs > 1")
+    r9eof.check(ctx, hprog, "R9a.eof")
     ctx.rule("R9.ptrarray", "object pointer arrays are zero-initialised, or ndefined counts only the cells stored")
     check_ptrarray(ctx, ctx.program(groups=["lib"]))
     ctx.rule("R9.gotoinit", "no scalar local is read across a goto taken before its initialisation")
